@@ -164,14 +164,16 @@ void set_thread_infinity_default() {}
 
 int stream_read_lp(std::istream& in, bool rational, BareLP& out) {
   SUT_TRY
+  SPxOut msgout; msgout.setVerbosity(SPxOut::ERROR);
+  std::shared_ptr<Tolerances> tol = std::make_shared<Tolerances>();
   if (rational) {
-    SPxLPRational lp; NameSet rn, cn;
+    SPxLPRational lp; NameSet rn, cn; lp.setOutstream(msgout); lp.setTolerances(tol);
     bool ok = lp.read(in, &rn, &cn);
     out.rows = lp.nRows(); out.cols = lp.nCols(); out.nnz = lp.nNzos();
     if (ok) { out.consistent = (rn.num() == lp.nRows() && cn.num() == lp.nCols()); if (!out.consistent) out.why = "name sets do not match dimensions"; }
     return ok ? 1 : 0;
   } else {
-    SPxLPReal lp; NameSet rn, cn;
+    SPxLPReal lp; NameSet rn, cn; lp.setOutstream(msgout); lp.setTolerances(tol);
     bool ok = lp.read(in, &rn, &cn);
     out.rows = lp.nRows(); out.cols = lp.nCols(); out.nnz = lp.nNzos();
     if (ok) {
